@@ -10,12 +10,11 @@ CONSTANTS
   DotAll = TRUE
   FindFirst = FALSE
   Emit = "lts"
-  MemoKeyJoined = FALSE
-  JoinSep = 10
-  MPool <- MCMPoolSmall
-  MNames <- MCMNames
-SPECIFICATION MSpec
-INVARIANT OutFaithful
-PROPERTY SameAnswer
-VIEW MView
+  LookupMemo = FALSE
+  NParas = 2
+  FPool <- MCFPool
+  FNames <- MCFNames
+SPECIFICATION FSpec
+PROPERTY FindIsLast
+VIEW FView
 CHECK_DEADLOCK FALSE
